@@ -47,6 +47,12 @@ pub fn rand_seed(r: &mut Rng, n: usize) -> SeedMode {
         // an all-zero seed and a seed written out as ones: gradients are zeros / as for `Ones`, and present all the same
         6 => SeedMode::Ints(vec![0.0; n]),
         7 => SeedMode::Ints(vec![1.0; n]),
+        // a run of zeros (whole leading rows with no adjoint) followed by ordinary values, or the other way round
+        8 if n >= 2 => {
+            let k = r.range(1, n - 1);
+            let front = r.chance(1, 2);
+            SeedMode::Ints((0..n).map(|i| if (i < k) == front { 0.0 } else { r.int(-3, 3) }).collect())
+        }
         _ => SeedMode::Ints((0..n).map(|_| r.int(-3, 3)).collect()),
     }
 }
